@@ -217,6 +217,13 @@ int main(int argc, char** argv) {
       for (;;) { for (i = 0; i < ns; i++) a[i] = sets[s[i]][idx[i]]; doCall(step, inst, fk, a, ns);
         k = ns - 1; while (k >= 0) { idx[k]++; if (idx[k] < setN[s[k]]) break; idx[k] = 0; k--; } if (k < 0) break; }
       break; }
+    case 'U': { /* the export name table of the instance (common.funcExports, what thread-spawn searches): every function export is
+                   listed under exactly its name, with a non-NULL function, and the table is NULL-terminated */
+      wasmFuncExport* fe = instp[atoi(tok[1])]->common.funcExports; int i, bad = -1, n = 0;
+      for (i = 0; i < NEXPNAMES && bad < 0; i++) { wasmFuncExport* e = fe; int found = 0; for (; e && e->name; e++) if (strcmp(e->name, expNames[i]) == 0 && e->func) found++; if (found < 1) bad = i; }
+      { wasmFuncExport* e = fe; for (; e && e->name; e++) n++; }
+      if (bad < 0 && n == NEXPNAMES) fprintf(OUT, "%d U ok\n", step); else fprintf(OUT, "%d U BAD export %d not listed under its name (table has %d entries, module has %d function exports)\n", step, bad, n, NEXPNAMES);
+      break; }
     case 'V': { /* structural invariant of a memory descriptor at a quiescent point: the allocation backs the current size (and, for a
                    shared memory, the declared maximum, which the runtime reserves up front): V <inst> <memref> */
       wasmMemory* m = getMem(atoi(tok[1]), atoi(tok[2])); size_t need = (size_t)(m->shared ? m->maxPages : m->pages) * 65536u, have = m->data ? malloc_usable_size(m->data) : 0;
@@ -360,6 +367,8 @@ def gen_driver(plan, module_name, header, multi=False, shared_ok=True, wasi=Fals
             # tables are not exported by w2c2; a defined table is read through the instance field t<index>
             o.append('  case %d: return &instp[inst]->t%d;' % (i, r['index']))
     o.append('  default: abort(); }\n}')
+    o.append('#define NEXPNAMES %d' % len(plan.exports))
+    o.append('static const char* expNames[] = {%s 0};' % ''.join(cstr(e['name']) + ', ' for e in plan.exports))
     # thunks
     for k, e in enumerate(plan.exports):
         args = []
